@@ -347,6 +347,13 @@ impl Walker {
             fd.options = Some(prost_types::FileOptions { java_package: Some("com.example.".to_string() + &"x".repeat(70_000)), ..Default::default() });
             self.synthetic = true;
         }
+        // descriptor sets written with source info (protoc --include_source_info) carry comments and spans: they
+        // are part of "what was registered"
+        if spec.name % 4 == 2 {
+            fd.source_code_info = Some(prost_types::SourceCodeInfo {
+                location: vec![prost_types::source_code_info::Location { path: vec![4, 0], span: vec![3, 0, 5, 1], leading_comments: Some(" a message\n".into()), trailing_comments: None, leading_detached_comments: vec![" detached\n".into()] }],
+            });
+        }
         self.prev_file = fd.name.clone().unwrap_or_default();
         for (i, m) in spec.m.iter().enumerate() {
             let m = self.message(&scope, m, i, 1);
